@@ -37,7 +37,12 @@ ASSUMPTIONS = [
     'keyvalue types come from the shipped engine database (trusted input here; C16 judges it)',
     '$variables appear only in string/name-typed keyvalues known to the database and in output targets, and are always defined in the instance',
     'keyvalues unknown to the database (no $ in them) are expected to be copied unchanged ("adds a copy of every ... entity")',
-    'ANGLE_NEG_PITCH / pitch / yaw keys and io proxies are not generated (documented special cases)',
+    'pitch keys (angle_negative_pitch on light_spot, angle_pitch / angle_negative_pitch on two classes of a small FGD handed in '
+    'through engine_cache) and yaw keys are judged through the effective orientation: angles with the pitch key (negated for the '
+    'negative type) and the yaw key applied must equal the template\'s effective orientation composed with the instance rotation; '
+    'io proxies are not generated',
+    'visgroup=True / visgroup=<VisGroup> are exercised on instance files whose entities are not hidden (those modes keep hidden '
+    'entities, which the statement does not describe); expected membership follows the parameter\'s documentation',
     'instance names are non-empty for collapse_one; fixup values contain no $',
     'pure-Python math/vmf only',
 ]
@@ -63,6 +68,11 @@ CLASSES = {
     # info_node / info_node_link are deliberately absent: node-id remapping is not part of the C17 statement
     # (observed on the pinned tree: a template link 1->2 is collapsed to 5->7 while the nodes become 1 and 3;
     # recorded in DESIGN.md as an observation outside the listed properties).
+    # the pitch / yaw keys override parts of "angles"; the two pitch types differ only in sign.  No shipped class uses
+    # angle_pitch, so two small classes come from a mod-style FGD handed in through engine_cache (CUSTOM_FGD).
+    'light_spot': (False, [('pitch', 'negpitch')]),
+    'verif_pitch_ent': (False, [('pitch', 'pitch'), ('yaw', 'yawkey'), ('parentname', 'name')]),
+    'verif_negpitch_ent': (False, [('pitch', 'negpitch'), ('yaw', 'yawkey'), ('parentname', 'name')]),
     'func_door': (True, [('movedir', 'ang'), ('filtername', 'name')]),
     'func_brush': (True, [('parentname', 'name')]),
     'trigger_multiple': (True, [('filtername', 'name')]),
@@ -75,6 +85,26 @@ VAR_POOL = ['v', 'var', 'vab', 'Name', 'mdl']
 MATS = ['tools/toolsnodraw', 'BRICK/brickwall001a', 'dev/dev_measuregeneric01']
 
 _ENGINE_CACHE: dict = {}
+CUSTOM_FGD = '''
+@PointClass = verif_pitch_ent : "a mod's entity with an un-negated pitch key"
+[
+    targetname(target_source) : "Name"
+    origin(origin) : "Origin"
+    angles(angle) : "Angles" : "0 0 0"
+    pitch(angle_pitch) : "Pitch" : "0"
+    yaw(float) : "Yaw" : "0"
+    parentname(target_destination) : "Parent"
+]
+@PointClass = verif_negpitch_ent : "same with the negated pitch key"
+[
+    targetname(target_source) : "Name"
+    origin(origin) : "Origin"
+    angles(angle) : "Angles" : "0 0 0"
+    pitch(angle_negative_pitch) : "Pitch" : "0"
+    yaw(float) : "Yaw" : "0"
+    parentname(target_destination) : "Parent"
+]
+'''
 
 
 def _kind_of(vtype) -> str:
@@ -95,7 +125,11 @@ def _kind_of(vtype) -> str:
         return 'axis'
     if vtype is V.EXT_VEC_LOCAL:
         return 'local'
-    if vtype in (V.ANGLE_NEG_PITCH, V.EXT_ANGLE_PITCH, V.CHOICES, V.INST_VAR_REP, V.TARG_DEST_CLASS):
+    if vtype is V.ANGLE_NEG_PITCH:
+        return 'negpitch'
+    if vtype is V.EXT_ANGLE_PITCH:
+        return 'pitch'
+    if vtype in (V.CHOICES, V.INST_VAR_REP, V.TARG_DEST_CLASS):
         return 'special'
     return 'str'
 
@@ -104,10 +138,19 @@ def prepare(tier: str) -> None:
     """Load the engine database once before forking and confirm the key-kind table against it."""
     import logging
     logging.getLogger('srctools').setLevel(logging.CRITICAL)     # "Unknown keyvalue" warnings are expected here
-    from srctools.fgd import EntityDef
+    from srctools.fgd import EntityDef, FGD
+    from srctools.filesys import VirtualFileSystem
+    fs = VirtualFileSystem({'custom.fgd': CUSTOM_FGD})
+    custom = FGD()
+    custom.parse_file(fs, fs['custom.fgd'])
     for cls, (is_brush, keys) in CLASSES.items():
-        d = EntityDef.engine_def(cls)
+        if cls.startswith('verif_'):
+            d = _ENGINE_CACHE[cls] = custom[cls]
+        else:
+            d = EntityDef.engine_def(cls)
         for key, kind in keys + [('origin', 'pos'), ('angles', 'ang'), ('targetname', 'name')]:
+            if kind == 'yawkey':      # hard-coded by name in collapse_one, whatever its FGD type
+                continue
             got = _kind_of(d.kv[key].type)
             if got != kind:
                 raise HarnessError(f'key table out of date: {cls}.{key} is {got} in the database, table says {kind}')
@@ -187,6 +230,8 @@ def ent_desc(only=None):
                 val = st.lists(st.one_of(st.integers(0, 200), st.integers(0, 200), st.integers(-5, -1)), max_size=6)
             elif kind == 'node':
                 val = st.integers(1, 6)
+            elif kind in ('pitch', 'negpitch', 'yawkey'):
+                val = st.sampled_from([0.0, 30.0, -45.0, 90.0, -90.0, 135.5, 270.0, 12.25, 400.0])
             else:
                 raise AssertionError(kind)
             kvs.append(st.one_of(st.none(), val).map(lambda v, key=key, kind=kind: [key, kind, v]))
@@ -246,6 +291,10 @@ def template():
         # often: an overlay listed first whose side list points at faces of brush entities that come later in the file
         'lead_overlay': st.one_of(st.none(), st.none(), ent_desc('info_overlay')),
         'tail_brush_ent': st.one_of(st.none(), st.none(), ent_desc('func_brush'), ent_desc('trigger_multiple')),
+        # visgroups of the instance file: [name index, nested under the previous group?], and which group (if any) each
+        # brush / entity / entity solid belongs to, dealt round-robin (a value >= the number of groups means "none")
+        'visgroups': st.lists(st.tuples(st.integers(0, 3), st.booleans()).map(list), max_size=3),
+        'vis_assign': st.lists(st.integers(0, 4), max_size=8),
     }).map(_with_lead)
 
 
@@ -259,6 +308,8 @@ def op():
         'fixval': st.lists(st.sampled_from(['door1', 'x', '5', 'Relay_A', 'q q', '']), min_size=len(VAR_POOL), max_size=len(VAR_POOL)),
         'via_text': st.booleans(),
         'same_as_prev': st.booleans(),     # repeat the previous collapse's template / name / style / fixups at this placement
+        # the visgroup parameter: 0 = False (strip), 1 = True (keep the instance's groups), 2 = a VisGroup of the target map
+        'vis': st.sampled_from([0, 0, 1, 2]),
         'pvec': vec3(512), 'pnum': coord(512),
     })
 
@@ -291,11 +342,33 @@ def build_prism(vmf, b):
     return solid
 
 
-def build_template(tdesc):
-    from srctools.vmf import VMF, Entity, Output
+VIS_NAMES = ['Detail', 'lights', 'Auto', 'Props']
+
+
+def build_template(tdesc, force_visible=False):
+    from srctools.vmf import VMF, Entity, Output, VisGroup
     vmf = VMF()
+    groups = []
+    for n, (name_i, nested) in enumerate(tdesc.get('visgroups', [])):
+        g = VisGroup(vmf, f'{VIS_NAMES[name_i % len(VIS_NAMES)]}_{n}')
+        g.color.x = 10.0 * n
+        if nested and groups:
+            groups[-1].child_groups.append(g)
+        else:
+            vmf.vis_tree.append(g)
+        groups.append(g)
+    assign = tdesc.get('vis_assign', [])
+    counter = [0]
+
+    def give_groups(obj):
+        if groups and assign:
+            k = assign[counter[0] % len(assign)]
+            counter[0] += 1
+            if k < len(groups):
+                obj.visgroup_ids.add(groups[k].id)
     for b in tdesc['brushes']:
         vmf.add_brush(build_prism(vmf, b))
+        give_groups(vmf.brushes[-1])
     for d in tdesc.get('dsolids', []):
         d = dict(d)
         d.pop('id', None)
@@ -325,8 +398,8 @@ def build_template(tdesc):
                     ent[key] = fmt_vec(val)
                 elif kind == 'axis':
                     ent[key] = f'{fmt_vec(val[0])}, {fmt_vec(val[1])}'
-                elif kind == 'node':
-                    ent[key] = str(val)
+                elif kind in ('node', 'pitch', 'negpitch', 'yawkey'):
+                    ent[key] = fmt_vec([val]) if kind != 'node' else str(val)
                 elif kind == 'sidelist':
                     pending_sidelists.append((ent, key, val))
             for key, val in e.get('extra', []):
@@ -335,7 +408,11 @@ def build_template(tdesc):
                 ent.add_out(Output(out, target, inp, param, delay, times=times))
             for b in e['solids']:
                 ent.solids.append(build_prism(vmf, b))
-        ent.hidden = e['hidden']
+                give_groups(ent.solids[-1])
+        # visgroup=True / a VisGroup keeps hidden entities (their visgroups come along); those modes are only judged on
+        # instance files without hidden entities
+        ent.hidden = e['hidden'] and not force_visible
+        give_groups(ent)
         vmf.add_ent(ent)
     faces = [side for br in vmf.brushes for side in br.sides] + [
         side for ent in vmf.entities for br in ent.solids for side in br.sides]
@@ -377,7 +454,8 @@ def snap_side(side):
 
 
 def snap_solid(solid):
-    return {'id': solid.id, 'hidden': solid.hidden or not solid.vis_shown, 'sides': [snap_side(s) for s in solid.sides]}
+    return {'id': solid.id, 'hidden': solid.hidden or not solid.vis_shown, 'sides': [snap_side(s) for s in solid.sides],
+            'vis': sorted(solid.visgroup_ids)}
 
 
 def snap_ent(ent):
@@ -388,11 +466,98 @@ def snap_ent(ent):
         'outs': [[o.output, o.target, o.input, o.params, o.delay, o.times, o.inst_in, o.inst_out] for o in ent.outputs],
         'solids': [snap_solid(s) for s in ent.solids],
         'fixup': [[k, v] for k, v in ent.fixup.items()],
+        'vis': sorted(ent.visgroup_ids),
     }
 
 
+def walk_groups(groups, depth=0, seen=None):
+    """(depth, group object) for every group below, own walk; stops at a group object met twice."""
+    seen = set() if seen is None else seen
+    for g in groups:
+        if id(g) in seen:
+            continue
+        seen.add(id(g))
+        yield depth, g
+        yield from walk_groups(g.child_groups, depth + 1, seen)
+
+
+def snap_groups(groups):
+    return [[d, g.name, g.id, [g.color.x, g.color.y, g.color.z], id(g)] for d, g in walk_groups(groups)]
+
+
 def snapshot(vmf):
-    return {'brushes': [snap_solid(b) for b in vmf.brushes], 'ents': [snap_ent(e) for e in vmf.entities]}
+    return {'brushes': [snap_solid(b) for b in vmf.brushes], 'ents': [snap_ent(e) for e in vmf.entities],
+            'groups': snap_groups(vmf.vis_tree)}
+
+
+def _first_diff(a, b):
+    if len(a) != len(b):
+        return f'length {len(a)} -> {len(b)}'
+    for i, (x, y) in enumerate(zip(a, b)):
+        if x != y:
+            if isinstance(x, dict):
+                keys = [k for k in x if x[k] != y.get(k)]
+                return f'item {i}, fields {keys}: {[x[k] for k in keys][:2]!r} -> {[y.get(k) for k in keys][:2]!r}'
+            return f'item {i}: {x!r} -> {y!r}'
+    return 'no difference'
+
+
+def check_visgroups(ctx, tvmf, tsnap, target, own_group, groups_before, new_brushes, new_ents, where):
+    tgroups = tsnap['groups']                                  # [depth, name, id, color, object id]
+    tobj_ids = {g[4] for g in tgroups}
+    all_now = list(walk_groups(target.vis_tree))
+    shared = [g.name for _, g in all_now if id(g) in tobj_ids]
+    if not ctx.check(not shared, 'visgroup_objects_shared',
+                     f'{where}: the map\'s visgroup tree holds the instance file\'s own VisGroup objects {shared}'):
+        return
+    wrong_map = [g.name for _, g in all_now if g.vmf is not target]
+    ctx.check(not wrong_map, 'visgroup_objects_shared', f'{where}: groups {wrong_map} in the map\'s tree belong to another VMF')
+    base_depth = 0
+    if own_group is not None:
+        sub = list(walk_groups([own_group]))
+        base_depth = 1
+        fresh = [(d, g) for d, g in sub if id(g) not in groups_before]
+    else:
+        fresh = [(d, g) for d, g in all_now if id(g) not in groups_before]
+    got_shape = [[d - base_depth, g.name, [g.color.x, g.color.y, g.color.z]] for d, g in fresh]
+    want_shape = [[g[0], g[1], g[3]] for g in tgroups]
+    if not ctx.check(got_shape == want_shape, 'visgroup_tree',
+                     f'{where}: groups added {got_shape}, the instance file has {want_shape}'):
+        return
+    by_id = {}
+    for _, g in all_now:
+        if g.id in by_id:
+            ctx.fail('visgroup_tree', f'{where}: two groups of the map share id {g.id}')
+            return
+        by_id[g.id] = g
+    tname = {g[2]: g[1] for g in tgroups}
+    fresh_ids = {g.id for _, g in fresh}
+    vis_brushes = [b for b in tsnap['brushes'] if not b['hidden']]
+
+    def judge(orig_vis, new_obj, what):
+        got_ids = set(new_obj.visgroup_ids)
+        unknown = sorted(got_ids - set(by_id))
+        if not ctx.check(not unknown, 'visgroup_membership', f'{where}: {what} is filed under visgroup ids {unknown} that no group of the map has'):
+            return
+        if orig_vis:
+            want_names = sorted(tname[i] for i in orig_vis)
+            ok = sorted(by_id[i].name for i in got_ids) == want_names and got_ids <= fresh_ids
+            ctx.check(ok, 'visgroup_membership',
+                      f'{where}: {what} was in groups {want_names} of the instance; the copy is in '
+                      f'{sorted(by_id[i].name for i in got_ids)} (ids {sorted(got_ids)}, this collapse added {sorted(fresh_ids)})')
+            ctx.label('copy_in_instance_visgroup')
+        else:
+            want = {own_group.id} if own_group is not None else set()
+            ctx.check(got_ids == want, 'visgroup_membership',
+                      f'{where}: {what} was in no group of the instance; the copy is in ids {sorted(got_ids)}, expected {sorted(want)}')
+    for bi, (ob, nb_) in enumerate(zip(vis_brushes, new_brushes)):
+        judge(ob['vis'], nb_, f'world brush {bi}')
+    for ei, (oe, ne_) in enumerate(zip(tsnap['ents'], new_ents)):
+        judge(oe['vis'], ne_, f'entity {ei}')
+        for bi, (ob, nb_) in enumerate(zip(oe['solids'], ne_.solids)):
+            judge(ob['vis'], nb_, f'entity {ei} brush {bi}')
+            if ob['vis']:
+                ctx.label('entity_solid_in_visgroup')
 
 
 # ----------------------------------------------------------------------------- reference model
@@ -537,6 +702,27 @@ def check_collapse(ctx, tsnap, new_brushes, new_ents, op_, table, R, T, node_see
         kinds.update({'origin': 'pos', 'angles': 'ang', 'targetname': 'name'})
         if cls == 'func_instance':
             kinds['file'] = 'str'
+        # The orientation an entity really has: "angles", with the pitch taken from a pitch key (negated for the
+        # angle_negative_pitch type) and the yaw from a yaw key when those exist.
+        def effective(keys_):
+            e = parse_vec(keys_['angles'])
+            if kinds.get('pitch') in ('pitch', 'negpitch') and 'pitch' in keys_:
+                e[0] = float(keys_['pitch']) * (-1.0 if kinds['pitch'] == 'negpitch' else 1.0)
+            if kinds.get('yaw') == 'yawkey' and 'yaw' in keys_:
+                e[1] = float(keys_['yaw'])
+            return e
+        overridden = ('angles' in okeys and 'angles' in nkeys and
+                      ((kinds.get('pitch') in ('pitch', 'negpitch') and 'pitch' in okeys) or (kinds.get('yaw') == 'yawkey' and 'yaw' in okeys)))
+        if overridden:
+            ctx.label('pitch_key:' + str(kinds.get('pitch')) if 'pitch' in okeys else 'yaw_key')
+            try:
+                want_eff = rm.mat_mul(rm.mat_from_angle(*effective(okeys)), R)
+                check_angles(ctx, 'orientation', fmt_vec(effective(nkeys)), want_eff,
+                             f'{where}: effective orientation (angles with the pitch/yaw keys applied; template angles='
+                             f'{okeys["angles"]!r} pitch={okeys.get("pitch")!r} yaw={okeys.get("yaw")!r}; collapsed angles='
+                             f'{nkeys["angles"]!r} pitch={nkeys.get("pitch")!r} yaw={nkeys.get("yaw")!r})')
+            except ValueError:
+                ctx.fail('orientation', f'{where}: pitch/yaw/angles do not parse after the collapse: {nkeys}')
         for key, oval in okeys.items():
             if key not in nkeys:
                 continue
@@ -564,8 +750,12 @@ def check_collapse(ctx, tsnap, new_brushes, new_ents, op_, table, R, T, node_see
             elif kind == 'local':
                 ctx.check(nval == oval, 'keys', f'{w}: local vector changed {oval!r} -> {nval!r}')
             elif kind == 'ang':
+                if key == 'angles' and overridden:
+                    continue          # judged above through the effective orientation
                 want = rm.mat_mul(rm.mat_from_angle(*parse_vec(oval)), R)
                 check_angles(ctx, 'orientation', nval, want, w)
+            elif kind in ('pitch', 'negpitch', 'yawkey'):
+                pass                  # part of the effective orientation
             elif kind == 'axis':
                 a, b = oval.split(',')
                 try:
@@ -617,8 +807,9 @@ def execute(desc, ctx):
     from srctools.instancing import Instance, InstanceFile, FixupStyle, collapse_one
 
     files = []
+    vis_modes = any(o.get('vis', 0) for o in desc['ops'])
     for tdesc in desc['templates']:
-        tv = build_template(tdesc)
+        tv = build_template(tdesc, force_visible=vis_modes)
         if desc['via_text']:
             tv = VMF.parse(Keyvalues.parse(export_text(tv)), preserve_ids=True)
         f = InstanceFile(tv)
@@ -631,6 +822,9 @@ def execute(desc, ctx):
         ctx.label('reset_warnings')
     target = VMF()
     target.create_ent('info_target', targetname='existing', origin='1 2 3')
+    from srctools.vmf import VisGroup
+    own_group = VisGroup(target, 'Instances')      # handed in as visgroup=<VisGroup>
+    target.vis_tree.append(own_group)
     node_seen: set = set()
     used = {}
     any_rot = False
@@ -654,12 +848,33 @@ def execute(desc, ctx):
         if any(a % 90 for a in op_['ang']):
             any_rot = True
         nb, ne = len(target.brushes), len(target.entities)
-        collapse_one(target, inst, f, engine_cache=_ENGINE_CACHE)
+        vis = op_.get('vis', 0)
+        groups_before = {id(g) for _, g in walk_groups(target.vis_tree)}
+        try:
+            if vis == 0 and not op_.get('vis_explicit'):
+                collapse_one(target, inst, f, engine_cache=_ENGINE_CACHE)
+            else:
+                collapse_one(target, inst, f, engine_cache=_ENGINE_CACHE, visgroup=[False, True, own_group][vis])
+        except Exception as exc:
+            ctx.fail('collapse_raises', f'collapse #{n} of template {ti} (visgroup mode {vis}, earlier collapses of it: '
+                                        f'{used[ti] - 1}) raised {type(exc).__name__}: {exc}', exc=type(exc).__name__)
+            return
+        ctx.label(f'visgroup_mode:{vis}')
         # (1) template intact
         after = export_text(f.vmf)
         if after != ttext:
             diff = next((f'{a!r} -> {b!r}' for a, b in zip(ttext.splitlines(), after.splitlines()) if a != b), 'length differs')
             ctx.fail('template_intact', f'collapse #{n} of template {ti} changed the template: {diff}')
+        now = snapshot(f.vmf)
+        for part in ('groups', 'brushes', 'ents'):
+            if now[part] != tsnap[part]:
+                ctx.fail('template_intact', f'collapse #{n} of template {ti} (visgroup mode {vis}) changed the template\'s {part}: '
+                                            f'{_first_diff(tsnap[part], now[part])}')
+        # (1b) visgroups: the map gets its own group objects, shaped like the instance's, and every copy is filed under the
+        # groups its original was in
+        if vis:
+            check_visgroups(ctx, f.vmf, tsnap, target, own_group if vis == 2 else None, groups_before,
+                            target.brushes[nb:], target.entities[ne:], f'collapse #{n} of template {ti} (visgroup mode {vis})')
         # (2)-(5) against the snapshot taken before the first collapse
         check_collapse(ctx, tsnap, target.brushes[nb:], target.entities[ne:], op_, table, R, T, node_seen)
         ctx.check(target.entities[0]['targetname'] == 'existing' and target.entities[0]['origin'] == '1 2 3',
@@ -845,7 +1060,8 @@ SUBCHECKS = [
     Sub('collapse_one', execute, strategy=strategy, quick=800, quick_shards=8, thorough=60000, floor=30,
         must_hit=('arbitrary_rotation', 'repeat_collapse', 'nested_instance_with_fixups', 'displacement',
                   'unknown_key_collapsed_twice', 'reset_warnings', 'sidelist_before_later_brush_entity',
-                  'hidden_solid_in_visible_entity', 'origin_with_variable')),
+                  'hidden_solid_in_visible_entity', 'origin_with_variable', 'visgroup_mode:1', 'visgroup_mode:2',
+                  'copy_in_instance_visgroup', 'entity_solid_in_visgroup', 'pitch_key:pitch', 'pitch_key:negpitch', 'yaw_key')),
     Sub('collapse_all', execute_all, strategy=graph_strategy, quick=600, thorough=30000, floor=20,
         must_hit=('cyclic_graph', 'cyclic_mixed_case_classname', 'finishes', 'exceeds_limit')),
 ]
